@@ -498,3 +498,214 @@ Proof.
   exists w, w'. split; [exact E|split; [exact E'|]]. intros a. rewrite S, S'. apply is_max_ext; [|exact HA].
   intros b. apply voters_perm. exact HP.
 Qed.
+
+(* =========================================================================================== *)
+(* Part 2 — Borda *)
+
+(* the voter with ballot o ranks a strictly above b (a in an earlier class; b must be listed) *)
+Fixpoint prefers (o : order) (a b : N) : bool :=
+  match o with
+  | [] => false
+  | c :: r => if memN a c then memN b (concat r) else prefers r a b
+  end.
+
+(* textbook Borda score of one voter: number of alternatives ranked strictly below a
+   (the documented tie convention of borda_scores: members of a class get the score of its last member) *)
+Definition borda1 (al : list N) (a : N) (o : order) : Z := Z.of_nat (length (filter (prefers o a) al)).
+Definition sumZ (l : list Z) : Z := sumS Z.add 0%Z l.
+Definition borda_score (al : list N) (P : list order) (a : N) : Z := sumZ (map (borda1 al a) P).
+Definition is_maxZ (f : N -> Z) (U : list N) (a : N) : Prop := In a U /\ forall b, In b U -> (f b <= f a)%Z.
+
+Notation totalZ := (total Z.add 0%Z).
+
+Fixpoint below (o : order) (a : N) : nat :=
+  match o with
+  | [] => 0
+  | c :: r => if memN a c then length (concat r) else below r a
+  end.
+
+Lemma prefers_in : forall o a b, prefers o a b = true -> In b (concat o).
+Proof.
+  induction o as [|c r IH]; intros a b H; simpl in *; [discriminate|].
+  apply in_or_app. right. destruct (memN a c); [apply memN_In; exact H|eapply IH; exact H].
+Qed.
+
+Lemma filter_none : forall {T} (f : T -> bool) l, (forall x, In x l -> f x = false) -> filter f l = [].
+Proof.
+  intros T f l. induction l as [|x r IH]; intro H; simpl; [reflexivity|].
+  rewrite (H x (or_introl eq_refl)). apply IH. intros; apply H; right; assumption.
+Qed.
+
+Lemma filter_all : forall {T} (f : T -> bool) l, (forall x, In x l -> f x = true) -> filter f l = l.
+Proof.
+  intros T f l. induction l as [|x r IH]; intro H; simpl; [reflexivity|].
+  rewrite (H x (or_introl eq_refl)). f_equal. apply IH. intros; apply H; right; assumption.
+Qed.
+
+Lemma filter_ext_in' : forall {T} (f g : T -> bool) l, (forall x, In x l -> f x = g x) -> filter f l = filter g l.
+Proof.
+  intros T f g l. induction l as [|x r IH]; intro H; simpl; [reflexivity|].
+  rewrite (H x (or_introl eq_refl)). rewrite IH by (intros; apply H; right; assumption). reflexivity.
+Qed.
+
+Lemma below_filter : forall o a, NoDup (concat o) -> length (filter (prefers o a) (concat o)) = below o a.
+Proof.
+  induction o as [|c r IH]; intros a Hn; [reflexivity|]. simpl concat. rewrite filter_app, app_length. simpl below.
+  simpl in Hn. destruct (memN a c) eqn:Ea.
+  - rewrite (filter_none (prefers (c :: r) a) c).
+    + rewrite (filter_all (prefers (c :: r) a) (concat r)); [reflexivity|].
+      intros x Hx. simpl. rewrite Ea. apply memN_In. exact Hx.
+    + intros x Hx. simpl. rewrite Ea. apply memN_false. intro Hx'. eapply NoDup_app_disj; eassumption.
+  - rewrite (filter_none (prefers (c :: r) a) c).
+    + rewrite (filter_ext_in' (prefers (c :: r) a) (prefers r a)) by (intros x Hx; simpl; rewrite Ea; reflexivity).
+      simpl. apply IH. eapply NoDup_app_r. exact Hn.
+    + intros x Hx. simpl. rewrite Ea. destruct (prefers r a x) eqn:P; [|reflexivity]. exfalso.
+      apply prefers_in in P. eapply NoDup_app_disj; eassumption.
+Qed.
+
+Lemma filter_length_perm : forall {T} (f : T -> bool) l1 l2,
+  Permutation l1 l2 -> length (filter f l1) = length (filter f l2).
+Proof.
+  intros T f l1 l2 H. induction H; simpl; try lia.
+  - destruct (f x); simpl; lia.
+  - destruct (f x), (f y); simpl; lia.
+Qed.
+
+Lemma borda_ev_keys : forall o i k a, In a (map fst (borda_ev i k o)) -> In a (concat o).
+Proof.
+  induction o as [|c r IH]; intros i k a H; simpl in *; [exact H|].
+  rewrite map_app, map_map in H. simpl in H. rewrite map_id in H. apply in_app_or in H. apply in_or_app.
+  destruct H as [H|H]; [left; exact H|right; eapply IH; exact H].
+Qed.
+
+Lemma borda_ev_keys' : forall o i k a, In a (concat o) -> In a (map fst (borda_ev i k o)).
+Proof.
+  induction o as [|c r IH]; intros i k a H; simpl in *; [exact H|].
+  rewrite map_app, map_map. simpl. rewrite map_id. apply in_app_or in H. apply in_or_app.
+  destruct H as [H|H]; [left; exact H|right; apply IH; exact H].
+Qed.
+
+Lemma Ztotal_app : forall a l1 l2, totalZ a (l1 ++ l2) = (totalZ a l1 + totalZ a l2)%Z.
+Proof. intros. apply total_app; intros; lia. Qed.
+
+Lemma borda_ev_total : forall o i k a, NoDup (concat o) ->
+  totalZ a (borda_ev i k o) =
+  if memN a (concat o) then ((i - Z.of_nat (length (concat o)) + Z.of_nat (below o a)) * Z.of_N k)%Z else 0%Z.
+Proof.
+  induction o as [|c r IH]; intros i k a Hn; [reflexivity|]. simpl borda_ev. simpl concat. simpl below.
+  simpl in Hn. rewrite Ztotal_app.
+  rewrite (total_const Z.add 0%Z Z.add_comm Z.add_0_l) by (eapply NoDup_app_l; exact Hn).
+  rewrite (IH _ k a (NoDup_app_r _ _ Hn)). rewrite app_length.
+  assert (M : memN a (c ++ concat r) = memN a c || memN a (concat r)) by (unfold memN; apply existsb_app).
+  rewrite M. destruct (memN a c) eqn:Ea; simpl.
+  - assert (Er : memN a (concat r) = false).
+    { apply memN_false. intro Hx. apply memN_In in Ea. eapply NoDup_app_disj; eassumption. }
+    rewrite Er. lia.
+  - destruct (memN a (concat r)); lia.
+Qed.
+
+Lemma sumZ_repeat : forall x n, sumZ (repeat x n) = (Z.of_nat n * x)%Z.
+Proof. intros x n. induction n as [|n IH]; [reflexivity|]. unfold sumZ in *. simpl repeat. simpl sumS. rewrite IH. lia. Qed.
+
+Lemma complete_perm : forall al o, NoDup al -> NoDup (concat o) -> incl (concat o) al ->
+  completeb al o = true -> Permutation (concat o) al.
+Proof.
+  intros al o Ha Ho Hi Hc. unfold completeb in Hc. apply Nat.eqb_eq in Hc.
+  apply NoDup_Permutation_bis; try assumption. lia.
+Qed.
+
+Definition wf_complete (i : inst) : Prop := all_orders (completeb (alts i)) i = true.
+
+Lemma borda_total : forall i a, wf_inst i -> wf_complete i ->
+  totalZ a (borda_events (n_alt i) (prof i)) = borda_score (alts i) (expand (prof i)) a.
+Proof.
+  intros i a W C. unfold borda_events, borda_score, sumZ.
+  apply (total_profile Z.add 0%Z Z.add_assoc Z.add_0_l (fun o k => borda_ev (Z.of_N (n_alt i)) k o) (borda1 (alts i) a)).
+  intros om Hom. destruct (wi_ord i W om Hom) as [Wo K].
+  unfold wf_complete, all_orders in C. rewrite forallb_forall in C. specialize (C om Hom).
+  assert (P := complete_perm _ _ (wi_alts i W) (wo_nodup _ _ Wo) (wo_incl _ _ Wo) C).
+  rewrite borda_ev_total by (apply (wo_nodup _ _ Wo)).
+  fold (sumZ (repeat (borda1 (alts i) a (fst om)) (N.to_nat (snd om)))). rewrite sumZ_repeat.
+  unfold borda1. rewrite <- (filter_length_perm _ _ _ P), below_filter by (apply (wo_nodup _ _ Wo)).
+  rewrite (wi_nalt i W), <- (Permutation_length P).
+  destruct (memN a (concat (fst om))) eqn:M.
+  - rewrite nat_N_Z, N_nat_Z. lia.
+  - assert (B : below (fst om) a = 0).
+    { clear - M. induction (fst om) as [|c r IH]; [reflexivity|]. simpl in *.
+      unfold memN in M. rewrite existsb_app in M. apply orb_false_iff in M. destruct M as [M1 M2].
+      unfold memN at 1. rewrite M1. apply IH. exact M2. }
+    rewrite B. lia.
+Qed.
+
+Lemma Zleb_refl : forall x, Z.leb x x = true. Proof. intro; apply Z.leb_le; lia. Qed.
+Lemma Zleb_trans : forall x y z, Z.leb x y = true -> Z.leb y z = true -> Z.leb x z = true.
+Proof. intros x y z; rewrite !Z.leb_le; lia. Qed.
+Lemma Zleb_total : forall x y, Z.leb x y = true \/ Z.leb y x = true.
+Proof. intros x y; rewrite !Z.leb_le; lia. Qed.
+
+Lemma maximal_is_maxZ : forall (f : N -> Z) U a,
+  maximal Z.leb f (fun x => In x U) a <-> is_maxZ f U a.
+Proof.
+  intros f U a. unfold maximal, is_maxZ. split; intros [H1 H2]; split; try exact H1; intros b Hb.
+  - apply Z.leb_le. apply H2. exact Hb.
+  - apply Z.leb_le. apply H2. exact Hb.
+Qed.
+
+Lemma borda_keys : forall i a, wf_inst i -> wf_complete i ->
+  (In a (map fst (borda_events (n_alt i) (prof i))) <-> In a (alts i)).
+Proof.
+  intros i a W C. unfold borda_events. split.
+  - intro H. apply in_map_iff in H. destruct H as [[x z] [E H]]. simpl in E. subst x.
+    apply in_flat_map in H. destruct H as [om [H1 H2]]. destruct (wi_ord i W om H1) as [Wo _].
+    apply (wo_incl _ _ Wo). eapply borda_ev_keys. apply in_map_iff. exists (a, z). split; [reflexivity|exact H2].
+  - intro H. destruct (prof i) as [|om p] eqn:E; [exfalso; apply (wi_ne i W); exact E|].
+    assert (Hom : In om (prof i)) by (rewrite E; left; reflexivity).
+    destruct (wi_ord i W om Hom) as [Wo _].
+    unfold wf_complete, all_orders in C. rewrite forallb_forall in C. specialize (C om Hom).
+    assert (P := complete_perm _ _ (wi_alts i W) (wo_nodup _ _ Wo) (wo_incl _ _ Wo) C).
+    simpl flat_map. rewrite map_app. apply in_or_app. left. apply borda_ev_keys'.
+    eapply Permutation_in; [apply Permutation_sym; exact P|exact H].
+Qed.
+
+Theorem borda_spec : forall i, wf_inst i -> wf_complete i -> dt_in (dt i) dom_ct = true ->
+  exists w, borda_winner i = Ok w /\
+            forall a, In a w <-> is_maxZ (borda_score (alts i) (expand (prof i))) (alts i) a.
+Proof.
+  intros i W C D. unfold borda_winner, borda_scores. unfold dom_ct in D. rewrite D.
+  assert (D' : dt_in (dt i) [Toc; Soc] = true).
+  { destruct (dt i); simpl in *; congruence. }
+  rewrite D'. simpl rbind.
+  assert (Hev : borda_events (n_alt i) (prof i) <> []).
+  { assert (A := wf_alts_ne i W). destruct (alts i) as [|x r] eqn:E; [congruence|].
+    assert (K : In x (map fst (borda_events (n_alt i) (prof i)))).
+    { apply borda_keys; try assumption. rewrite E. left. reflexivity. }
+    intro Z. rewrite Z in K. exact K. }
+  destruct (table_winners Z.add 0%Z Z.leb Z.add_assoc Z.add_comm Z.add_0_l Zleb_refl Zleb_trans Zleb_total
+              [] (borda_events (n_alt i) (prof i)) (NoDup_nil _) (or_intror Hev)) as [w [Hw Hs]].
+  exists w. split; [exact Hw|]. intros a. rewrite Hs, <- maximal_is_maxZ. apply maximal_ext.
+  - intros b. rewrite lookup_nil, Z.add_0_l. apply borda_total; assumption.
+  - intros b. simpl. rewrite borda_keys by assumption. intuition.
+Qed.
+
+Theorem borda_guard : forall i, dt_in (dt i) dom_ct = false -> borda_winner i = Err Incompatible.
+Proof. intros i H. unfold borda_winner. unfold dom_ct in H. rewrite H. reflexivity. Qed.
+
+Lemma borda_score_perm : forall al P Q a, Permutation P Q -> borda_score al P a = borda_score al Q a.
+Proof.
+  intros al P Q a H. unfold borda_score, sumZ. apply (sumS_perm Z.add 0%Z Z.add_assoc Z.add_comm).
+  apply Permutation_map. exact H.
+Qed.
+
+Theorem borda_regroup : forall i i',
+  wf_inst i -> wf_inst i' -> wf_complete i -> wf_complete i' ->
+  dt_in (dt i) dom_ct = true -> dt_in (dt i') dom_ct = true ->
+  alts i = alts i' -> Permutation (expand (prof i)) (expand (prof i')) ->
+  exists w w', borda_winner i = Ok w /\ borda_winner i' = Ok w' /\ forall a, In a w <-> In a w'.
+Proof.
+  intros i i' W W' C C' D D' HA HP.
+  destruct (borda_spec i W C D) as [w [E S]]. destruct (borda_spec i' W' C' D') as [w' [E' S']].
+  exists w, w'. split; [exact E|split; [exact E'|]]. intros a. rewrite S, S'. rewrite <- HA.
+  unfold is_maxZ. split; intros [H1 H2]; split; try exact H1; intros b Hb.
+  - rewrite <- !(borda_score_perm _ _ _ _ HP). apply H2. exact Hb.
+  - rewrite !(borda_score_perm _ _ _ _ HP). apply H2. exact Hb.
+Qed.
